@@ -17,8 +17,8 @@ theorem recv_sites :
 /-- the complete inventory (a new Send / Close site anywhere changes this list) -/
 theorem site_inventory :
     chanSites.map (fun s => (s.fn, s.what)) =
-      [("deliver", "Send(via encode)"), ("pushReq", "Send(via encode)"), ("stopLocked", "Close"), ("read", "Recv"),
-       ("pushErrorLocked", "Send(via encode)"), ("accept", "Recv"), ("handleRequestLocked", "Send"), ("send", "Send"),
+      [("deliver", "Send(via encode)"), ("pushErrorLocked", "Send(via encode)"), ("pushReq", "Send(via encode)"), ("read", "Recv"),
+       ("stopLocked", "Close"), ("accept", "Recv"), ("handleRequestLocked", "Send"), ("send", "Send"),
        ("stopLocked", "Close")] := by decide
 
 /-- exactly one reader goroutine per Start / NewClient -/
